@@ -1343,7 +1343,8 @@ def _finalize_results(
     # Final reindexing has to be here to be lazy
     if not reindex.blockwise and expected_groups is not None:
         finalized[agg.name] = reindex_(
-            finalized[agg.name],
+            # cast first so that the user's fill_value is not truncated to a narrower dtype
+            finalized[agg.name].astype(agg.dtype["final"], copy=False),
             squeezed["groups"],
             expected_groups,
             fill_value=fill_value,
